@@ -42,8 +42,11 @@ def full(ns, local):
 
 # ---------------------------------------------------------------------------------------------- placeholders
 def substitute(text, gv):
-    """independent left-to-right tokenizer: `{` run-of-non-`}`-non-newline `}`; defined => str(value) else unchanged.
-    Returns (new text, changed?)"""
+    """the statement, read literally and independently of any regular expression: scanning left to right, at every `{` the
+    text up to the NEXT `}` is a candidate name; if that name is defined the whole `{name}` is replaced by str(value) and
+    scanning goes on behind it, otherwise the `{` stays and scanning goes on with the next character (so a `{NAME}` is found
+    wherever it stands, also behind another brace). One pass: replacement text is not scanned again.
+    Returns (new text, does the text contain any `{...}` span at all?)"""
     if gv is None:
         return text, False
     out = []
@@ -54,15 +57,14 @@ def substitute(text, gv):
         ch = text[i]
         if ch == '{':
             j = text.find('}', i + 1)
-            if j != -1 and '\n' not in text[i + 1:j]:
+            if j != -1:
                 name = text[i + 1:j]
-                found = True
+                if '\n' not in name:
+                    found = True
                 if name in gv:
                     out.append(str(gv[name]))
-                else:
-                    out.append(text[i:j + 1])
-                i = j + 1
-                continue
+                    i = j + 1
+                    continue
         out.append(ch)
         i += 1
     return ''.join(out), found
